@@ -97,6 +97,7 @@ func CreateInstance(logger types.Logger, options InstanceOptions) Instance {
 type instance struct {
 	up          bool
 	waitProc    chan struct{}
+	lastFailed  bool
 	failedSince *time.Time
 	logger      types.Logger
 	options     *InstanceOptions
@@ -288,7 +289,7 @@ func (i *instance) AcmeUpdate() {
 	}
 }
 
-func (i *instance) HAProxyUpdate(timer *utils.Timer) error {
+func (i *instance) HAProxyUpdate(timer *utils.Timer) (err error) {
 	// nil config, just ignore
 	if i.config == nil {
 		return nil
@@ -299,9 +300,19 @@ func (i *instance) HAProxyUpdate(timer *utils.Timer) error {
 	//   - i.metrics.IncUpdate<Status>() should be called always, but only once
 	//   - i.updateSuccessful(<bool>) should be called only if haproxy is reloaded or cfg is validated
 	//
-	defer i.config.Commit()
+	defer func() {
+		i.config.Commit()
+		// A failed update leaves maps, configuration files or the running
+		// instance outdated, and the tracking of what was changed has just
+		// been committed. The next update should not trust them.
+		i.lastFailed = err != nil
+	}()
 	i.config.SyncConfig()
 	i.config.Shrink()
+	if i.lastFailed {
+		i.logger.Warn("last update failed, writing all the configuration files and reloading haproxy")
+		i.config.(*config).changeAll()
+	}
 	if err := i.config.WriteTCPServicesMaps(); err != nil {
 		i.metrics.IncUpdateNoop()
 		return fmt.Errorf("error building tcp services maps: %w", err)
